@@ -290,6 +290,11 @@ def check(ctx):
         r2_creation(ctx, f, rep)
         r3_no_effect_unless_applied(ctx, f, rep)
         r4_effects_when_applied(ctx, f, rep)
+        # the queued Down update stays queued: an entry leaves the backlog only by being transmitted or by being
+        # replaced by a fresher update of the same address (C15-R1, re-run here) - going idle in the same call does
+        # not drop it
+        from . import c15 as _c15
+        _c15.r1_add_or_replace(ctx, f, c09._Rename(rep, 'C15-R1', 'C11-R4'), Effects(f))
         rep.rule('C11-R5', 'Down is final: can_change(Down, *) is constant false; the only other ways a Down record changes '
                            'are the conflict replacement and remove_if_down (exact identity, state Down, forget-timer only)')
         table = c01.extract_can_change(ctx, f, c09._Rename(rep, 'C01-R1', 'C11-R5'))
